@@ -99,18 +99,22 @@ def mirror {n : Nat} (p : K × Vector K n) : K × Vector K n := (-p.1, p.2)
 /-! ### the translated stage regions under reflection and scaling -/
 section methods
 
-theorem rk4_stages_reflect {n : Nat} (Kc : Nat → Vector K n) (y k1 : Vector K n) (x h : K) :
-    (Gen.Rk4.stages (f := openF fun j => vneg (Kc j)) (y := y) (h := -h) (k1 := vneg k1) (x := -x)).calls
-      = (Gen.Rk4.stages (f := openF Kc) (y := y) (h := h) (k1 := k1) (x := x)).calls.map mirror := by
-  rw [rk4_stage_eqs, rk4_stage_eqs, kOf_vneg]
+theorem rk4_stages_reflect {n : Nat} (Kc : Nat → Vector K n) (y k1 : Vector K n) (x h : K) (last : Bool) (xend : K)
+    (hl : last = true → xend = x + h) :
+    (Gen.Rk4.stages (f := openF fun j => vneg (Kc j)) (y := y) (h := -h) (k1 := vneg k1) (x := -x) (last := last) (xend := -xend)).calls
+      = (Gen.Rk4.stages (f := openF Kc) (y := y) (h := h) (k1 := k1) (x := x) (last := last) (xend := xend)).calls.map mirror := by
+  have hl' : last = true → -xend = -x + -h := fun e => by rw [hl e]; ring
+  rw [rk4_stage_eqs _ _ _ _ _ _ _ hl', rk4_stage_eqs _ _ _ _ _ _ _ hl, kOf_vneg]
   simp [rkArg_reflect, mirror]
 
-theorem rk23_stages_reflect {n : Nat} (Kc : Nat → Vector K n) (y k1 : Vector K n) (x h : K) :
-    (Gen.Rk23.stages (f := openF fun j => vneg (Kc j)) (y := y) (h := -h) (k1 := vneg k1) (x := -x)).calls
-      = (Gen.Rk23.stages (f := openF Kc) (y := y) (h := h) (k1 := k1) (x := x)).calls.map mirror ∧
-    (Gen.Rk23.stages (f := openF fun j => vneg (Kc j)) (y := y) (h := -h) (k1 := vneg k1) (x := -x)).yt
-      = (Gen.Rk23.stages (f := openF Kc) (y := y) (h := h) (k1 := k1) (x := x)).yt := by
-  rw [rk23_stage_eqs, rk23_stage_eqs, rk23_new_state, rk23_new_state, kOf_vneg]
+theorem rk23_stages_reflect {n : Nat} (Kc : Nat → Vector K n) (y k1 : Vector K n) (x h : K) (last : Bool) (xend : K)
+    (hl : last = true → xend = x + h) :
+    (Gen.Rk23.stages (f := openF fun j => vneg (Kc j)) (y := y) (h := -h) (k1 := vneg k1) (x := -x) (last := last) (xend := -xend)).calls
+      = (Gen.Rk23.stages (f := openF Kc) (y := y) (h := h) (k1 := k1) (x := x) (last := last) (xend := xend)).calls.map mirror ∧
+    (Gen.Rk23.stages (f := openF fun j => vneg (Kc j)) (y := y) (h := -h) (k1 := vneg k1) (x := -x) (last := last) (xend := -xend)).yt
+      = (Gen.Rk23.stages (f := openF Kc) (y := y) (h := h) (k1 := k1) (x := x) (last := last) (xend := xend)).yt := by
+  have hl' : last = true → -xend = -x + -h := fun e => by rw [hl e]; ring
+  rw [rk23_stage_eqs _ _ _ _ _ _ _ hl', rk23_stage_eqs _ _ _ _ _ _ _ hl, rk23_new_state, rk23_new_state, kOf_vneg]
   simp [rkArg_reflect, rkNew_reflect, mirror]
 
 theorem dopri5_stages_reflect {n : Nat} (Kc : Nat → Vector K n) (y k1 : Vector K n) (x h : K) (last : Bool) (xend : K)
@@ -131,9 +135,9 @@ theorem dop853_stages_reflect {n : Nat} (Kc : Nat → Vector K n) (y k1 : Vector
   rw [dop853_stage_eqs _ _ _ _ _ _ _ hl', dop853_stage_eqs _ _ _ _ _ _ _ hl, kOf_vneg]
   simp [rkArg_reflect, mirror]
 
-theorem rk23_stages_scale {n : Nat} (c : K) (Kc : Nat → Vector K n) (y k1 : Vector K n) (x h : K) :
-    (Gen.Rk23.stages (f := openF fun j => vsmul c (Kc j)) (y := vsmul c y) (h := h) (k1 := vsmul c k1) (x := x)).yt
-      = vsmul c (Gen.Rk23.stages (f := openF Kc) (y := y) (h := h) (k1 := k1) (x := x)).yt := by
+theorem rk23_stages_scale {n : Nat} (c : K) (Kc : Nat → Vector K n) (y k1 : Vector K n) (x h : K) (last : Bool) (xend : K) :
+    (Gen.Rk23.stages (f := openF fun j => vsmul c (Kc j)) (y := vsmul c y) (h := h) (k1 := vsmul c k1) (x := x) (last := last) (xend := xend)).yt
+      = vsmul c (Gen.Rk23.stages (f := openF Kc) (y := y) (h := h) (k1 := k1) (x := x) (last := last) (xend := xend)).yt := by
   rw [rk23_new_state, rk23_new_state, kOf_vsmul, rkNew_scale]
 
 theorem dopri5_stages_scale {n : Nat} (c : K) (Kc : Nat → Vector K n) (y k1 : Vector K n) (x h : K) (last : Bool) (xend : K)
